@@ -15,6 +15,10 @@ def setup(J):
         for k, sep in ((2, " -I "), (3, ", "), (2, ",")):
             jobs.append(J.with_delay_fallback(J.wf("C15", "gjoin", k, 1, 2, "cmd", oracles=["nohang", "clean", "c18"], tier=tier, events_dep=False, extra=sep,
                                                    id=f"C15-join-sep-k{k}-{'-'.join(str(ord(c)) for c in sep)}")))
+        # ... and modifiers behind the join: applied to every member, not to the joined string
+        for k, sep, mod in ((2, ",", "%.txt"), (3, " ", "basename"), (3, " -I ", "%.txt")):
+            jobs.append(J.with_delay_fallback(J.wf("C15", "gjoin", k, 1, 2, "cmd", oracles=["nohang", "clean", "c18"], tier=tier, events_dep=False, extra=sep + "|" + mod,
+                                                   id=f"C15-join-mod-k{k}-{'-'.join(str(ord(c)) for c in sep)}-{mod.replace('/', '_').replace('%', 'pct')}")))
         q = tier == "quick"
         rule = (
             "exhaustive enumeration of a finite pattern grammar x value alphabet, every case built through the public API (Workflow.NewProc, Process.SetOut, NewTask called like Process.createTasks does) in one controlled execution and compared with a reference model written from docs/writing_workflows.md and README.md. "
